@@ -320,6 +320,7 @@ struct Runner {
   size_t al[2] {0, 0}, ne[2] {0, 0};
   typename V::AllocationMetadata meta[2];
   size_t snap_calls {0}, snap_total {0};
+  bool have_snap {false};
   // manager scene
   std::unique_ptr<ReusableManager<R>> mgr;
   std::vector<ReusableAccessor<V>> accs;
@@ -366,6 +367,7 @@ struct Runner {
     reg[1] = new V(Alloc {*res[0]});
     mheaders = mreleases = 0;
     snap_calls = snap_total = 0;
+    have_snap = false;
     return out;
   }
 
@@ -634,9 +636,14 @@ struct Runner {
     if (c == "snap" && w.size() == 1) {
       snap_calls = calls_now() + (mgr ? M::vcalls(mgr->resource()) : 0);
       snap_total = total_now() + (mgr ? M::total(mgr->resource()) : 0);
+      have_snap = true;
       return "ok";
     }
+    if ((c == "noalloc" || c == "noalloc-total") && w.size() == 1 && !have_snap) {
+      return "ok";  // nothing to compare with (a minimised case may have lost its `snap`)
+    }
     if ((c == "noalloc" || c == "noalloc-total") && w.size() == 1) {
+      have_snap = false;
       // noalloc: element buffers only (plus everything when elements own no memory of the resource);
       // noalloc-total: every byte (after a manager re-creation with converged metadata)
       size_t calls = calls_now() + (mgr ? M::vcalls(mgr->resource()) : 0);
@@ -780,6 +787,7 @@ struct Runner {
     }
     // ------------------------------------------------------------------ manager scene
     if (c == "mnew" && w.size() == 2) {
+      have_snap = false;
       mgr.reset();
       accs.clear();
       mref.clear();
